@@ -40,7 +40,7 @@ func synthLayout(c explore.Chooser) *prog.Program {
 		lc.Abs = append(lc.Abs, form == 1 || (form == 2 && i%2 == 1))
 	}
 	lc.Spell = []string{"clean", "dotdot", "double-slash", "dot"}[s.Choose("spelling", 4)]
-	lc.Error = []string{"", "missing", "txt", "type-error", "two-modules", "directory", "type-error-in-import", "type-error-in-transitive-import", "path-through-a-file", "trailing-separator", "name-too-long"}[s.Choose("error-case", 11)]
+	lc.Error = []string{"", "missing", "txt", "type-error", "two-modules", "directory", "type-error-in-import", "type-error-in-transitive-import", "path-through-a-file", "trailing-separator", "name-too-long", "soft-type-error", "soft-type-error-in-import"}[s.Choose("error-case", 13)]
 	// the working directory of the call: the module root, or a directory below it (relative paths then climb with ..)
 	lc.Cwd = []string{"", "a", "ab/x"}[s.Choose("cwd", 3)]
 	js, _ := json.Marshal(lc)
@@ -92,6 +92,10 @@ func layoutModule() (string, error) {
 	write("lay/mid/f.go", "package mid\n\nimport \"verif.test/lay/bad2\"\n\ntype M struct {\n\tT bad2.T\n}\n")
 	write("lay/imp/f.go", "package imp\n\nimport \"verif.test/lay/bad2\"\n\ntype F struct {\n\tT bad2.T\n}\n")
 	write("lay/imp2/f.go", "package imp2\n\nimport \"verif.test/lay/mid\"\n\ntype F struct {\n\tM mid.M\n}\n")
+	// packages whose only type errors are of the kind go/types calls soft (unused import, unused variable)
+	write("lay/soft/f.go", "package soft\n\nimport \"fmt\"\n\ntype F struct {\n\tA int\n}\n")
+	write("lay/soft2/f.go", "package soft2\n\ntype T struct {\n\tA int\n}\n\nfunc helper() {\n\tunused := 1\n}\n")
+	write("lay/softimp/f.go", "package softimp\n\nimport \"verif.test/lay/soft2\"\n\ntype F struct {\n\tT soft2.T\n}\n")
 	write("lay/notes.txt", "not a go file\n")
 	write("other/go.mod", "module verif.test/other\n\ngo 1.23.0\n")
 	write("other/o.go", "package other\n\ntype O int\n")
@@ -164,6 +168,10 @@ func evalC17(e *Eval) {
 		args = append(args, "a/f.go/")
 	case "name-too-long": // ENAMETOOLONG
 		args = append(args, "a/"+strings.Repeat("n", 300)+".go")
+	case "soft-type-error":
+		args = append(args, "soft/f.go")
+	case "soft-type-error-in-import":
+		args = append(args, "softimp/f.go")
 	case "type-error-in-import":
 		args = append(args, "imp/f.go")
 	case "type-error-in-transitive-import":
@@ -254,7 +262,7 @@ func init() {
 		ID: "C17", Family: "F-layout", Synth: synthLayout, NoLoad: true,
 		Bound:    map[string]int{"quick": 4, "thorough": 6},
 		Deadline: map[string]time.Duration{"quick": 6 * time.Minute, "thorough": 40 * time.Minute},
-		Rule:     "file sets over the directories {., a, ab, abc, ab1, ab2, a/x, ab/x} of a scratch module on disk: 1..3 files (ordered, duplicates allowed), file f.go or g.go, paths relative / absolute / mixed, the call made from the module root or from a directory below it (a, ab/x: relative paths then start with a different number of ..), spelled clean / with dir/../dir / with a doubled separator / with ./, plus the error cases (missing file, .txt file, package with a type error, file of another module, a directory, type error in a package that is only imported directly or transitively, path through a file, trailing separator, name too long); every set within the deviation bound of the default (one relative file) is loaded with the real analysis.LoadSources; non-trivial = at least two arguments",
+		Rule:     "file sets over the directories {., a, ab, abc, ab1, ab2, a/x, ab/x} of a scratch module on disk: 1..3 files (ordered, duplicates allowed), file f.go or g.go, paths relative / absolute / mixed, the call made from the module root or from a directory below it (a, ab/x: relative paths then start with a different number of ..), spelled clean / with dir/../dir / with a doubled separator / with ./, plus the error cases (missing file, .txt file, package with a type error, file of another module, a directory, type error in a package that is only imported directly or transitively, packages whose only type errors are soft ones (unused import; unused variable in an imported package), path through a file, trailing separator, name too long); every set within the deviation bound of the default (one relative file) is loaded with the real analysis.LoadSources; non-trivial = at least two arguments",
 		Assumptions: []string{
 			"each call runs the real go list (offline, GOFLAGS=-mod=mod); the worker's current directory is the module root",
 		},
